@@ -150,6 +150,13 @@ def run_scenarios(rep, tier, seed, tag, make_scenario, oracle, n_quick, n_thorou
                 for st in scn["steps"]:
                     if st["op"] in ("create", "verify", "verifydh", "diff", "flatten", "info") and srng.random() < 0.5:
                         st["spell"] = "slash"
+            if i % 4 == 3:
+                # files and folders named with -sf typed in a non-normalised way (./x, //x, d/../d/x)
+                frng = core.rng_for(seed, f"{tag}/{i}/sfspell")
+                for st in scn["steps"]:
+                    if st["op"] in ("create", "verify") and st.get("sf"):
+                        n = len(st["sf"]) if isinstance(st["sf"], list) else 1
+                        st["sf_spell"] = [frng.choice(["dot", "dup", "updown", None]) for _ in range(n)]
             if i % 5 == 2:
                 # verbose runs: more lines on the console, the same behaviour
                 vrng = core.rng_for(seed, f"{tag}/{i}/verbose")
